@@ -119,7 +119,8 @@ func c12Mutations(name string, base core.Store, thorough bool) []c12Log {
 		}
 	}
 	// every field of every event replaced by values of the wrong type / shape
-	repl := []string{`null`, `0`, `true`, `[]`, `{}`, `""`, `"2026-13-45T99:99:99Z"`, `"not a time"`}
+	repl := []string{`null`, `0`, `true`, `[]`, `{}`, `""`, `"2026-13-45T99:99:99Z"`, `"not a time"`,
+		`"` + strings.Repeat("LONGID", 20) + `"`, `"` + strings.Repeat("日本", 60) + `"`} // far longer than any id, title column or terminal width
 	for i, ln := range lines {
 		var ev map[string]json.RawMessage
 		if json.Unmarshal(ln, &ev) != nil {
@@ -169,6 +170,21 @@ func c12Mutations(name string, base core.Store, thorough bool) []c12Log {
 			k := k
 			set(fmt.Sprintf("data.%s removed", k), func(ev, data map[string]json.RawMessage) { delete(data, k) })
 		}
+		// no timestamp anywhere in the line (envelope and payload): there is nothing a reader could fall back to
+		set("every timestamp field removed", func(ev, data map[string]json.RawMessage) {
+			delete(ev, "ts")
+			for _, k := range []string{"ts", "created_at"} {
+				delete(data, k)
+			}
+		})
+		set("every timestamp field empty", func(ev, data map[string]json.RawMessage) {
+			ev["ts"] = json.RawMessage(`""`)
+			for _, k := range []string{"ts", "created_at"} {
+				if _, ok := data[k]; ok {
+					data[k] = json.RawMessage(`""`)
+				}
+			}
+		})
 	}
 	// whole-file shapes
 	add("shape", "empty file", nil)
@@ -420,7 +436,7 @@ func runC12(env *core.Env) {
 	env.Finish("model_checking", map[string]interface{}{
 		"states": evals, "transitions": commands, "traces_validated_against_impl": validated, "samples": samples.list,
 		"evaluations": evals, "distinct_nontrivial": classes.len(), "exhaustive": env.TimeLeft(),
-		"rule":         "log contents = seeds (CLI-produced logs, a hand-merged log with equal timestamps, a hand-merged log with dependency cycles among siblings, unfiled tasks and epics, thorough: the legacy sample) x {every truncation offset (quick: last two lines fully, every 7th elsewhere), every line delete/duplicate/adjacent swap, conflict markers / unknown event type / blank lines at every position, all permutations of the first 5 (6) lines, one (8) bit flips per byte, every field of every event replaced by null/0/true/[]/{}/\"\"/bad timestamps or removed, empty/CRLF/BOM/NUL/garbage/no-trailing-newline, a 10 MiB-1 and a 10 MiB+1 line}; each x 11 read commands (3x, 8x on equal sort keys) and 6 mutating commands; distinct = (mutation family, command, exit)",
+		"rule":         "log contents = seeds (CLI-produced logs, a hand-merged log with equal timestamps, a hand-merged log with dependency cycles among siblings, unfiled tasks and epics, thorough: the legacy sample) x {every truncation offset (quick: last two lines fully, every 7th elsewhere), every line delete/duplicate/adjacent swap, conflict markers / unknown event type / blank lines at every position, all permutations of the first 5 (6) lines, one (8) bit flips per byte, every field of every event replaced by null/0/true/[]/{}/\"\"/bad timestamps/a 120-byte and a 120-column string or removed, all timestamps of a line removed or emptied, empty/CRLF/BOM/NUL/garbage/no-trailing-newline, a 10 MiB-1 and a 10 MiB+1 line}; each x 11 read commands (3x, 8x on equal sort keys) and 6 mutating commands; distinct = (mutation family, command, exit)",
 		"commands_run": commands, "commands_exiting_1": failing, "nondeterministic_outputs": nondet, "seeds": len(seeds),
 		"unconfirmed_candidates": unconfirmed.Load(),
 	}, []string{
